@@ -33,7 +33,7 @@ def ref_parse(block):
     """[(index, type, declared_length, value)] exactly as serialised.
 
     Records end at a zero index or at end of data; an incomplete last record is dropped.  A User-Agent
-    (index 9) of declared length 0x80 whose value does not end in NUL continues to the next NUL (not
+    (index 9) of declared length 0x80 that is over-long - no NUL anywhere in the field - continues to the next NUL (not
     consumed) or to end of data."""
     out = []
     pos = 0
@@ -48,7 +48,7 @@ def ref_parse(block):
             break
         val = block[pos + 6 : pos + 6 + ln]
         pos += 6 + ln
-        if idx == UA and ln == 0x80 and not val.endswith(b"\x00"):
+        if idx == UA and ln == 0x80 and b"\x00" not in val:
             end = block.find(b"\x00", pos)
             if end == -1:
                 end = n
